@@ -42,15 +42,20 @@ func (c *connection) onHup(p Poll) error {
 	onRequest := c.onRequestCallback.Load()
 	needCloseByUser := onConnect == nil && onRequest == nil
 	if !needCloseByUser {
-		// input that is still unread must be offered to OnRequest before the close callbacks run
-		// (`send & close by peer`): if no task holds the processing lock right now, start one;
-		// it runs the callbacks itself once the handler has returned.
-		if or, _ := onRequest.(OnRequest); or != nil && !c.inputBuffer.IsEmpty() &&
-			!(c.getState() == connStateNone && onConnect != nil) && c.onProcess(nil, or) {
+		// already PollDetach when call OnHup
+		if !c.lock(processing) {
+			// a task holds the processing lock: it offers unread input and runs the callbacks when it exits
 			return nil
 		}
-		// already PollDetach when call OnHup
-		c.closeCallback(true, false)
+		// input that is still unread must be offered to OnRequest before the close callbacks run
+		// (`send & close by peer`): the task started here runs the callbacks itself once the handler has returned.
+		// The lock is taken once for both decisions, a task that exits in between cannot be missed.
+		if or, _ := onRequest.(OnRequest); or != nil && !c.inputBuffer.IsEmpty() &&
+			!(c.getState() == connStateNone && onConnect != nil) {
+			c.process(nil, or)
+			return nil
+		}
+		c.closeCallback(false, false)
 	}
 	return nil
 }
